@@ -19,7 +19,7 @@ import (
 // WriteTimeout is zero (SetDeadline arms both), and a connection that completes each request within the non-zero timeouts
 // is never cut off because of its age.
 func c15TLS(r *Result) {
-	const T = 120 * time.Millisecond
+	const T = 250 * time.Millisecond
 	ca := tlsm.NewCA("c15-ca")
 	serverCert := tlsm.Leaf(ca, tlsm.LeafOpts{Host: "kmip.test"})
 	clientCert := tlsm.Leaf(ca, tlsm.LeafOpts{Host: "client.test", Client: true})
